@@ -58,6 +58,7 @@ class Check:
         self.extra: dict = {}
         self.canaries: list[dict] = []
         self.machinery: list[str] = []
+        self.evid_dir = None                      # replays write their evidence elsewhere
 
     # ------------------------------------------------------------------ TLC bookkeeping
     def model(self, name: str, res, *, expect: str | None = None, note: str = "") -> None:
@@ -107,7 +108,8 @@ class Check:
     # ------------------------------------------------------------------ finish
     def finish(self, rule: str, explanation: str = "", exhaustive: bool | None = None) -> int:
         wall = time.time() - self.t0
-        EVID.mkdir(parents=True, exist_ok=True)
+        evid = self.evid_dir or EVID
+        evid.mkdir(parents=True, exist_ok=True)
         replay_dir = WORK / "replays"
         replay_dir.mkdir(parents=True, exist_ok=True)
         lines = []
@@ -146,7 +148,7 @@ class Check:
               "assumptions": self.assumptions, "wall_s": round(wall, 2), "violations": len(self.violations)}
         if self.machinery:
             ev["machinery_failures"] = self.machinery
-        (EVID / f"{self.pid}.json").write_text(json.dumps(ev, indent=1, default=jdefault) + "\n")
+        (evid / f"{self.pid}.json").write_text(json.dumps(ev, indent=1, default=jdefault) + "\n")
         for ln in lines:
             print(ln)
         for m in self.machinery:
